@@ -198,9 +198,34 @@ type payload struct {
 	Mixed   bool     `json:"mixed_shapes"` // the index of the key fields differs between record types (same number of fields)
 	Omit    bool     `json:"key_absent"`   // some records lack the (single, first-position) key field
 	Records []string `json:"records"`      // ZSON of record id i+1
+	Types   []string `json:"types"`        // the context's complex types in id order (30, 31, ...): ids matter for F-C06-2
 	recs    []zed.Value
 	recSize int
 	zctx    *zed.Context // a fresh context per payload, as a query has (type ids start at 30)
+}
+
+// typesOf lists the complex types of zctx in type-id order.
+func typesOf(zctx *zed.Context) []string {
+	var out []string
+	for id := zed.IDTypeComplex; ; id++ {
+		t, err := zctx.LookupType(id)
+		if err != nil || t == nil {
+			return out
+		}
+		out = append(out, zson.FormatType(t))
+	}
+}
+
+// contextWithTypes returns a fresh context in which the given types have the
+// ids 30, 31, ... (each type's components precede it in the list).
+func contextWithTypes(types []string) (*zed.Context, error) {
+	zctx := zed.NewContext()
+	for _, t := range types {
+		if _, err := zson.ParseType(zctx, t); err != nil {
+			return nil, fmt.Errorf("type %s: %w", t, err)
+		}
+	}
+	return zctx, nil
 }
 
 // xlate re-homes a universe value in zctx.
@@ -407,6 +432,7 @@ func (e *sortEnv) makePayload(rng *rand.Rand, keys []int, K int) *payload {
 		p.recs = append(p.recs, r)
 		p.Records = append(p.Records, zson.FormatValue(r))
 	}
+	p.Types = typesOf(p.zctx)
 	return p
 }
 
@@ -461,6 +487,7 @@ type sortWitness struct {
 	Program string   `json:"program"`
 	Spec    sortSpec `json:"spec"`
 	Records []string `json:"records"`
+	Types   []string `json:"types,omitempty"` // complex types of the query context in id order
 	Sizes   []int    `json:"sizes"`
 	MemMax  int      `json:"mem_max_bytes"`
 	MemRef  int      `json:"mem_max_bytes_reference,omitempty"`
@@ -557,7 +584,7 @@ func (e *sortEnv) checkGroup(cases []sortCase, K int) {
 	for _, sc := range cases {
 		memMax := sc.Limit * p.recSize
 		rows, ids, spills, err := e.runSort(p.zctx, prog, p.recs, sc.Sizes, memMax)
-		w := sortWitness{Kind: "sort", Program: prog, Spec: p.Spec, Records: p.Records, Sizes: sc.Sizes, MemMax: memMax, Mixed: p.Mixed, Omit: p.Omit, Family: p.Family, Got: rows, Want: sc.Out}
+		w := sortWitness{Kind: "sort", Program: prog, Spec: p.Spec, Records: p.Records, Types: p.Types, Sizes: sc.Sizes, MemMax: memMax, Mixed: p.Mixed, Omit: p.Omit, Family: p.Family, Got: rows, Want: sc.Out}
 		ties := false
 		seen := map[int]bool{}
 		for _, k := range sc.Keys {
@@ -613,7 +640,7 @@ func (e *sortEnv) checkGroup(cases []sortCase, K int) {
 			if (p.Mixed || p.Omit) && results[i].runs >= 2 {
 				sig = sigF2
 			}
-			w := sortWitness{Kind: "sort", Program: prog, Spec: p.Spec, Records: p.Records, Sizes: g.Sizes, MemMax: results[i].lim * p.recSize, MemRef: results[0].lim * p.recSize, Mixed: p.Mixed, Omit: p.Omit, Family: p.Family, Got: results[i].rows}
+			w := sortWitness{Kind: "sort", Program: prog, Spec: p.Spec, Records: p.Records, Types: p.Types, Sizes: g.Sizes, MemMax: results[i].lim * p.recSize, MemRef: results[0].lim * p.recSize, Mixed: p.Mixed, Omit: p.Omit, Family: p.Family, Got: results[i].rows}
 			c.Violate(sig, fmt.Sprintf("`%s` over the same %d values gives a different result with sort.MemMaxBytes=%d (%d runs) than with %d (%d runs)", prog, len(p.recs), results[i].lim*p.recSize, results[i].runs, results[0].lim*p.recSize, results[0].runs), w)
 		}
 	}
